@@ -59,6 +59,13 @@ def run(ck: vlib.Check):
         sorted_globs = [n for n in _ast.walk(fn) if isinstance(n, _ast.Call) and _ast.unparse(n.func) == "sorted" and n.args and not n.keywords
                         and isinstance(n.args[0], _ast.Call) and n.args[0] in globs]
         ck.cov["pattern_listing"] = {"glob_calls": len(globs), "wrapped_in_sorted": len(sorted_globs)}
+        # ... and the literal reading comes first: the glob sits in the else-branch of an `is_file()` / `isfile(...)` test of the argument
+        lit = [n for n in _ast.walk(fn) if isinstance(n, _ast.If) and ("is_file" in _ast.unparse(n.test) or "isfile" in _ast.unparse(n.test))
+               and any(g in list(_ast.walk(_ast.Module(body=n.orelse, type_ignores=[]))) for g in globs)]
+        ck.cov["pattern_listing"]["literal_name_test_before_glob"] = len(lit)
+        if not lit:
+            ck.tie_broken("structure", "raw_io.py:concatenate:literal-name", "no `is_file` test whose else-branch holds the glob call: the model (concatenate_name) reads "
+                          "an existing file's name literally")
         if not globs or len(sorted_globs) != len(globs):
             ck.tie_broken("structure", "raw_io.py:concatenate:pattern-listing", f"{len(globs)} glob call(s), {len(sorted_globs)} of them directly inside sorted(...): "
                           "the model reads the files a pattern matches in name order (concatenate_pattern / sort_by_name)")
